@@ -78,3 +78,31 @@
   (! (and (= (ucntS B o j) (ucnt B o j))
           (=> (> j 0) (= (ucnt B o j) (+ (ucnt B o (- j 1)) (ite (< (ucand B o (- j 1)) DQ) 1 0)))))
      :pattern ((ucntS B o j)))))
+; ---- SampleInBall (challenge polynomial), as a function of the stream S = SHAKE-256(seed) ----
+; skipTo(S,P,i): the least position q >= P with S[q] <= i (the next byte accepted as index for step i)
+(declare-fun skipTo ((Array Int Int) Int Int) Int)
+(declare-fun skipToS ((Array Int Int) Int Int) Int)
+;@ needs skipToS
+(assert (forall ((S (Array Int Int)) (P Int) (i Int))
+  (! (and (= (skipToS S P i) (skipTo S P i))
+          (=> (<= (select S P) i) (= (skipTo S P i) P))
+          (=> (> (select S P) i) (= (skipTo S P i) (skipTo S (+ P 1) i))))
+     :pattern ((skipToS S P i)))))
+; posAt(S,i): stream position before step i (steps i = N-TAU .. N-1); the first 8 bytes are the sign bits
+(declare-fun posAt ((Array Int Int) Int) Int)
+;@ needs posAt
+(assert (forall ((S (Array Int Int))) (! (= (posAt S 196) 8) :pattern ((posAt S 196)))))
+;@ needs posAt
+(assert (forall ((S (Array Int Int)) (i Int)) (! (=> (>= i 196) (= (posAt S (+ i 1)) (+ (skipTo S (posAt S i) i) 1))) :pattern ((posAt S (+ i 1))))))
+; sib(S,s0,i): the polynomial after steps N-TAU .. i-1 (s0 = the 64 sign bits, little-endian)
+(declare-fun sib ((Array Int Int) Int Int) (Array Int Int))
+;@ needs sib
+(assert (forall ((S (Array Int Int)) (s0 Int)) (! (= (sib S s0 196) ((as const (Array Int Int)) 0)) :pattern ((sib S s0 196)))))
+;@ needs sib
+(assert (forall ((S (Array Int Int)) (s0 Int) (i Int))
+  (! (=> (>= i 196)
+         (= (sib S s0 (+ i 1))
+            (store (store (sib S s0 i) i (select (sib S s0 i) (select S (skipTo S (posAt S i) i))))
+                   (select S (skipTo S (posAt S i) i))
+                   (- 1 (* 2 (mod (shrn s0 (- i 196)) 2))))))
+     :pattern ((sib S s0 (+ i 1))))))
